@@ -15,6 +15,7 @@ import scipy.sparse as sp
 from EasyFEA import Models, Simulations, SolverType, AlgoType
 from EasyFEA.FEM import LagrangeCondition
 
+from . import _suite
 from ..core import Ctx, quiet, relerr
 from ..gen import meshes as gm
 from . import _sims
@@ -85,6 +86,9 @@ def cases(tier: str, seed: int) -> list[dict]:
     for i, c in enumerate(out):
         c["id"] = f"C04-{i:05d}-{c['sc']}-{c['kind']}-{c['et']}-{c['solver']}"
         c["index"] = i
+    for c in _suite.suite_cases(PROP, tier):
+        c["index"] = len(out)
+        out.append(c)
     return out
 
 
@@ -224,6 +228,8 @@ def _residual_checks(ctx: Ctx, simu, sh: Shadow, u, key, tol_res, oracle="free-r
 
 
 def run_case(case: dict, ctx: Ctx) -> None:
+    if case.get("fam") == "suite":
+        return _suite.run_suite(case, ctx, PROP)
     rng = np.random.default_rng([case["seed"], NUM, case["index"]])
     {"history": run_history, "bcprog": run_bcprog, "orphans": run_orphans, "backend": run_backend, "lagrange": run_lagrange,
      "connection": run_connection, "newton": run_newton, "lsq": run_lsq}[case["sc"]](case, ctx, rng)
